@@ -1,6 +1,7 @@
 import PyDBMLModel.Py
 import PyDBMLModel.Text
 import PyDBMLModel.Model
+import PyDBMLModel.Domain
 import PyDBMLModel.RenderSql
 import PyDBMLModel.RenderDbml
 import PyDBMLModel.Codec
